@@ -20,6 +20,13 @@ pub fn property_of(target: &str) -> &'static str {
         "decode_codecs" => "C16",
         "beacon_text" => "C17",
         "dissect" => "C19",
+        "hist_c03" => "C03",
+        "hist_c05" => "C05",
+        "hist_c07" => "C07",
+        "hist_c11" => "C11",
+        "hist_c12" => "C12",
+        "hist_c13" => "C13",
+        "hist_c10" => "C10",
         _ => "C08",
     }
 }
@@ -60,6 +67,7 @@ pub fn run_target(ctx: &Ctx, target: &str, data: &[u8]) -> Vec<Viol> {
             let proto = if data[0] & 1 == 0 { "frame" } else { "packet" };
             crate::props::c19::check_case(ctx, proto, &data[1..])
         }
+        "hist_c03" | "hist_c05" | "hist_c07" | "hist_c11" | "hist_c12" | "hist_c13" | "hist_c10" => run_history(ctx, target, data),
         _ => {
             // node_datagrams: byte 0 = receiver state, then records: [source selector][len lo][len hi][bytes...]
             if data.len() < 2 {
@@ -96,6 +104,238 @@ pub fn run_target(ctx: &Ctx, target: &str, data: &[u8]) -> Vec<Viol> {
             crate::props::c08::run_case(ctx, &Case { state, injections })
         }
     }
+}
+
+/// History targets: the bytes are decoded into an operation sequence (schedule / history) of the property's own
+/// interpreter, so coverage feedback steers the search through interleavings instead of through parsers.
+/// Byte 0 (and 1) select the configuration, every further byte (sometimes with an argument byte) is one operation.
+pub fn decode_history(target: &str, data: &[u8]) -> Option<serde_json::Value> {
+    if data.len() < 2 {
+        return None;
+    }
+    let cfg = data[0];
+    let body = &data[1..];
+    let counts = [1usize, 1, 1, 2, 5, 30, 61, 121];
+    Some(match target {
+        "hist_c03" => {
+            use crate::props::c03::{Case, Op};
+            let mut ops = vec![];
+            for &b in body.iter().take(96) {
+                let k = (b >> 3) % 8;
+                ops.push(match b % 8 {
+                    0 | 1 => Op::Seal,
+                    2 | 3 | 4 => Op::Deliver(k),
+                    5 => Op::Tick,
+                    6 => Op::Forge(k),
+                    _ => Op::Rotate,
+                });
+            }
+            let mode = (cfg >> 2) % 3;
+            if mode != 0 {
+                ops.retain(|o| !matches!(o, Op::Rotate | Op::Forge(_)));
+            }
+            serde_json::json!({"mode": mode, "case": Case { cipher: cfg % 3, ops }})
+        }
+        "hist_c05" => {
+            use crate::props::c05::{Act, Case};
+            let mut acts = vec![];
+            for &b in body.iter().take(120) {
+                let k = (b >> 3) % 4;
+                let n = counts[((b >> 3) & 7) as usize];
+                match b % 8 {
+                    0 => acts.push(Act::InitA),
+                    1 => acts.push(Act::InitB),
+                    2 => acts.push(Act::Deliver(k)),
+                    3 => acts.push(Act::DeliverNewest),
+                    4 => acts.push(Act::Dup(k)),
+                    5 => acts.push(Act::Drop(k)),
+                    6 => acts.extend(std::iter::repeat(Act::TickA).take(n)),
+                    _ => acts.extend(std::iter::repeat(Act::TickB).take(n)),
+                }
+                if acts.len() > 700 {
+                    break;
+                }
+            }
+            serde_json::to_value(Case { orientation: cfg & 1 == 1, acts, liveness: cfg & 2 == 2 }).ok()?
+        }
+        "hist_c07" => {
+            use crate::props::c07::{Act, Case};
+            let mut acts = vec![];
+            for &b in body.iter().take(80) {
+                let k = (b >> 3) % 4;
+                acts.push(match b % 8 {
+                    0 => Act::CycleA,
+                    1 => Act::CycleB,
+                    2 => Act::TicksA((b >> 3) * 4 + 1),
+                    3 => Act::TicksB((b >> 3) * 4 + 1),
+                    4 => Act::Deliver(k),
+                    5 => Act::DeliverNewest,
+                    6 => Act::Dup(k),
+                    _ => Act::Drop(k),
+                });
+            }
+            serde_json::to_value(Case { orientation: cfg & 1 == 1, initiator: (cfg >> 1) & 1, acts, lossless_cycles: if cfg & 4 == 4 { 8 } else { 0 } }).ok()?
+        }
+        "hist_c11" => {
+            use crate::props::c11::{Op, TableCase};
+            let (st, ct) = [(5u32, 12u32), (12, 5), (1, 1), (6, 6)][(cfg % 4) as usize];
+            let mut ops = vec![];
+            let mut i = 0;
+            while i < body.len() && ops.len() < 200 {
+                let b = body[i];
+                i += 1;
+                let peer = (b >> 3) % 3;
+                let arg = body.get(i).copied().unwrap_or(0);
+                match b % 8 {
+                    0 | 1 => {
+                        i += 1;
+                        let mut set = vec![];
+                        // two ranges out of nine from one argument byte, optionally a third from the op byte
+                        if arg != 0xff {
+                            let nr = crate::props::c11::N_RANGES;
+                            set.push(arg % nr);
+                            if arg >= nr {
+                                set.push((arg / nr) % nr);
+                            }
+                            if b & 0x40 != 0 {
+                                set.push((arg / 16 + (b >> 7)) % nr);
+                            }
+                        }
+                        ops.push(Op::Announce(peer, set));
+                    }
+                    2 => ops.push(Op::Disconnect(peer)),
+                    3 | 4 | 7 => ops.push(Op::Lookup((b >> 3) % crate::props::c11::N_ADDRS)),
+                    5 => ops.push(Op::Tick([0u32, 1, 2, st.saturating_sub(1), st, st + 1, ct.saturating_sub(1), ct + 1][((b >> 3) & 7) as usize])),
+                    _ => {
+                        i += 1;
+                        ops.push(Op::Learn(peer, arg % crate::props::c11::N_ADDRS));
+                    }
+                }
+            }
+            serde_json::to_value(TableCase { switch_timeout: st, claim_timeout: ct, ops, strict_learning: false }).ok()?
+        }
+        "hist_c12" => {
+            use crate::props::c12::{Case, Step};
+            let mut steps = vec![];
+            let mut i = 0;
+            while i < body.len() && steps.len() < 80 {
+                let b = body[i];
+                i += 1;
+                let peer = (b >> 3) % 3;
+                let arg = body.get(i).copied().unwrap_or(0);
+                match b % 8 {
+                    0 | 1 | 2 => {
+                        i += 1;
+                        let n = ((b >> 5) % 5) as usize;
+                        let list: Vec<u8> = (0..n).map(|j| (arg >> (2 * j.min(3))) & 3).collect();
+                        steps.push(Step::Announce(peer, list));
+                    }
+                    3 => steps.push(Step::Disconnect(peer)),
+                    4 | 5 => steps.push(Step::Probe),
+                    6 => {
+                        i += 1;
+                        steps.push(Step::Learn(peer, arg % 4));
+                    }
+                    _ => steps.push(Step::Tick([0u32, 1, 3, 4, 5, 7, 8, 9][((b >> 3) & 7) as usize])),
+                }
+            }
+            serde_json::to_value(Case { claim_timeout: 8, switch_timeout: 5, steps }).ok()?
+        }
+        "hist_c13" => {
+            use crate::props::c13::{Case, Op, SWITCH_TIMEOUT};
+            let nodes = 3 + (cfg & 1);
+            let mut ops = vec![];
+            let mut i = 0;
+            while i < body.len() && ops.len() < 40 {
+                let b = body[i];
+                i += 1;
+                match b % 8 {
+                    0..=4 => {
+                        let arg = body.get(i).copied().unwrap_or(0);
+                        i += 1;
+                        ops.push(Op::Frame { at: (b >> 3) % nodes, src: arg % 3, dst: (arg / 3) % 3, vlan: (arg / 9) % 5, pcp: (b >> 5) * 2 + (arg >> 7) });
+                    }
+                    5 | 6 => ops.push(Op::Wait([0u32, 1, 2, SWITCH_TIMEOUT - 1, SWITCH_TIMEOUT, SWITCH_TIMEOUT + 1, SWITCH_TIMEOUT + 2, 3][((b >> 3) & 7) as usize])),
+                    _ => ops.push(Op::Leave((b >> 3) % nodes)),
+                }
+            }
+            serde_json::to_value(Case { nodes, hub: cfg & 6 == 2, ops, router: cfg & 6 == 4 }).ok()?
+        }
+        "hist_c10" => {
+            use crate::props::c10::{Case, Dst, MeshMode, Op};
+            let nodes = 2 + (cfg & 3).min(3);
+            let mode = [MeshMode::Router, MeshMode::Switch, MeshMode::Hub][((cfg >> 2) % 3) as usize];
+            let mut ops = vec![];
+            for &b in body.iter().take(60) {
+                let at = (b >> 3) % nodes;
+                let h = b >> 6;
+                ops.push(match b % 8 {
+                    0 | 1 => Op::Read { at, dst: Dst::Node(h % nodes), host: (b >> 5) % 3 },
+                    2 => Op::Read { at, dst: Dst::Unknown, host: h % 3 },
+                    3 => Op::Read { at, dst: Dst::Broadcast, host: h % 3 },
+                    4 => Op::Read { at, dst: Dst::Own, host: h % 3 },
+                    5 => Op::Read { at, dst: Dst::Roaming(h & 1), host: (b >> 5) % 3 },
+                    6 => Op::Read { at, dst: Dst::Node(h % nodes), host: 3 + ((b >> 5) & 1) },
+                    _ => Op::Outsider { at, kind: b >> 5 },
+                });
+            }
+            serde_json::to_value(Case { mode, nodes, ops, default_route: cfg & 0x10 != 0 }).ok()?
+        }
+        _ => return None,
+    })
+}
+
+fn run_history(ctx: &Ctx, target: &str, data: &[u8]) -> Vec<Viol> {
+    let v = match decode_history(target, data) {
+        Some(v) => v,
+        None => return vec![],
+    };
+    match target {
+        "hist_c03" => {
+            let case: crate::props::c03::Case = match serde_json::from_value(v["case"].clone()) {
+                Ok(c) => c,
+                Err(_) => return vec![],
+            };
+            match v["mode"].as_u64() {
+                Some(0) => crate::props::c03::run_case(ctx, &case),
+                Some(m) => crate::props::c03::run_pc_case(ctx, m == 1, &case.ops),
+                None => vec![],
+            }
+        }
+        "hist_c05" => serde_json::from_value(v).map(|c| crate::props::c05::run_case(ctx, &c).viols).unwrap_or_default(),
+        "hist_c07" => serde_json::from_value(v).map(|c| crate::props::c07::run_case(ctx, &c).viols).unwrap_or_default(),
+        "hist_c11" => serde_json::from_value(v).map(|c| crate::props::c11::run_table_case(ctx, &c)).unwrap_or_default(),
+        "hist_c12" => serde_json::from_value(v).map(|c| crate::props::c12::run_case(ctx, &c)).unwrap_or_default(),
+        "hist_c13" => serde_json::from_value(v).map(|c| crate::props::c13::run_case(ctx, &c)).unwrap_or_default(),
+        "hist_c10" => serde_json::from_value(v).map(|c| crate::props::c10::run_case(ctx, &c)).unwrap_or_default(),
+        _ => vec![],
+    }
+}
+
+pub const HISTORY_TARGETS: [&str; 7] = ["hist_c03", "hist_c05", "hist_c07", "hist_c11", "hist_c12", "hist_c13", "hist_c10"];
+
+/// Quick-tier use of the fuzz targets: every committed corpus input of `target` (seed inputs and the inputs kept
+/// from earlier campaigns because they reached new coverage) is run in-process through the same oracle.
+pub fn replay_corpus(ctx: &Ctx, target: &str) {
+    let dir = format!("{}/corpus/{}", crate::engine::verif_dir(), target);
+    let mut files: Vec<std::path::PathBuf> = std::fs::read_dir(&dir).map(|rd| rd.flatten().map(|e| e.path()).collect()).unwrap_or_default();
+    files.sort();
+    let n = files.len() as u64;
+    let all: Vec<Vec<u8>> = files.iter().filter_map(|f| std::fs::read(f).ok()).chain(seed_inputs(target)).collect();
+    let total = all.len() as u64;
+    ctx.par_range(total, |_, i| {
+        let data = &all[i as usize];
+        let v = run_target(ctx, target, data);
+        let v: Vec<Viol> = v
+            .into_iter()
+            .map(|mut x| {
+                x.case = serde_json::json!({"kind": "fuzz", "target": target, "bytes": crate::engine::hex(data)});
+                x
+            })
+            .collect();
+        ctx.report(v);
+    });
+    ctx.subspace(&format!("committed corpus of fuzz target {} replayed in-process ({} files + {} generated seeds)", target, n, total - n), total, true);
 }
 
 /// libFuzzer entry: abort on violation so that the input is saved as an artefact.
@@ -164,6 +404,43 @@ pub fn seed_inputs(target: &str) -> Vec<Vec<u8>> {
             let mut p6 = vec![1u8, 0x60];
             p6.extend_from_slice(&[0; 45]);
             out.push(p6);
+        }
+        "hist_c03" => {
+            for cfg in 0..9u8 {
+                out.push(vec![cfg, 0, 0, 2, 5, 0, 10, 5, 2, 5, 10, 6, 7, 0, 2]);
+            }
+        }
+        "hist_c05" => {
+            for cfg in 0..4u8 {
+                out.push(vec![cfg, 0, 2, 2, 2]);
+                out.push(vec![cfg, 0, 1, 2, 2, 3, 4, 2, 6, 7, 2]);
+                out.push(vec![cfg, 0, 5, 6 + 8 * 7, 2, 2, 2]);
+            }
+        }
+        "hist_c07" => {
+            for cfg in 0..8u8 {
+                out.push(vec![cfg, 4, 0, 4, 1, 4, 0, 5, 1, 4]);
+                out.push(vec![cfg, 7, 0, 1, 0, 6, 4, 4, 1, 0]);
+            }
+        }
+        "hist_c11" => {
+            for cfg in 0..4u8 {
+                out.push(vec![cfg, 0, 1 + 9 * 4, 8, 3, 3, 3, 5 + 8, 3, 0, 1, 3, 5 + 8 * 5, 3, 2, 3, 6, 2, 3 + 16]);
+            }
+        }
+        "hist_c12" => {
+            out.push(vec![0, 0x40, 0b0100, 4, 0x20, 0, 4, 6, 2, 3, 4, 7 + 8 * 6, 4]);
+            out.push(vec![0, 0x60 + 8, 0b100100, 4, 0x40 + 8, 0b0010, 4, 3 + 8, 4]);
+        }
+        "hist_c13" => {
+            for cfg in 0..6u8 {
+                out.push(vec![cfg, 0, 1, 8, 3, 5 + 8 * 4, 8, 3, 7 + 8, 0, 1]);
+            }
+        }
+        "hist_c10" => {
+            for cfg in 0..12u8 {
+                out.push(vec![cfg, 0, 8 + 64, 2, 3, 4, 5, 5 + 8, 6, 7, 16 + 128]);
+            }
         }
         _ => {
             // node_datagrams: one record per genuine kind, derived form
